@@ -1,6 +1,6 @@
 (* Dispatcher of the model area: time zones (C11 C12 C13).
    [dispatch_tz f a] = Some result when [f] names a function of this area.  Definitions only. *)
-Require Import Lib.Base Model.Params Model.TzRules Model.TzCache Model.TzGen.
+Require Import Lib.Base Model.Params Model.TzRules Model.TzCache Model.TzGen Model.TzId Gen.Gen_tz.
 From Coq Require Import String.
 Local Open Scope string_scope.
 
@@ -154,8 +154,62 @@ Definition dispatch_c13 (f : list N) (a : jv) : option jv :=
          | _ => junsupported end
   else None.
 
+(* ------------------------------------------------------------------ C11 *)
+(* a tzinfo on the wire: [[ids...], [] | [tzname]];  a date-time: [wall, tzinfo, offset] or [wall] (floating) *)
+Definition wtz : Type := (list (list N) * option (list N))%type.
+Definition wtz_of (v : jv) : option wtz :=
+  match v with
+  | JL [JL ids; JL nm] =>
+      match jv_strs ids, (match nm with [] => Some None | [JS n] => Some (Some n) | _ => None end) with
+      | Some ids', Some nm' => Some (ids', nm') | _, _ => None end
+  | _ => None
+  end.
+Definition wdt_of (v : jv) : option (dt wtz) :=
+  match v with
+  | JL [JZ w] => Some (mkDt wtz w None)
+  | JL [JZ w; t; JZ o] => match wtz_of t with Some t' => Some (mkDt wtz w (Some (t', o))) | None => None end
+  | _ => None
+  end.
+Fixpoint wdts_of (l : list jv) : option (list (dt wtz)) :=
+  match l with
+  | [] => Some []
+  | x :: r => match wdt_of x, wdts_of r with Some d, Some r' => Some (d :: r') | _, _ => None end
+  end.
+Definition jopt_str (o : option (list N)) : jv := match o with Some s => JL [JS s] | None => JL [] end.
+Definition jwire (w : wire) : jv := JL [JZ (w_wall w); jbool (w_z w); jopt_str (w_tzid w)].
+Definition wtzids (t : wtz) := fst t.
+Definition wtzname (t : wtz) (_ : Z) := snd t.
+(* the UTC zone of the wire provider *)
+Definition wP : provider wtz := mkProv wtz (fun _ => None) (fun z w => mkDt wtz w (Some (z, 0%Z))) (([UTCs], None), 0%Z).
+
+Definition dispatch_c11 (f : list N) (a : jv) : option jv :=
+  if tzis f "tzid_to_ical" then
+    Some match wdt_of a with Some d => jwire (vdatetime_to_ical wtz wtzids wtzname d) | None => junsupported end
+  else if tzis f "tzid_add_to_ical" then
+    Some match a with
+         | JL [JS lname; d] =>
+             match wdt_of d with
+             | Some d' => jwire (vdatetime_to_ical wtz wtzids wtzname (add_value wtz wP lname d'))
+             | None => junsupported end
+         | _ => junsupported end
+  else if tzis f "tzid_list_to_ical" then
+    Some match a with
+         | JL l => match wdts_of l with
+                   | Some ds => let r := list_to_ical wtz wtzids wtzname ds in JL [jopt_str (fst r); JL (map jwire (snd r))]
+                   | None => junsupported end
+         | _ => junsupported end
+  else if tzis f "tzid_period_to_ical" then
+    Some match a with
+         | JL [s; e] => match wdt_of s, wdt_of e with
+                        | Some s', Some e' => let r := period_to_ical wtz wtzids wtzname s' e' in
+                                              JL [jopt_str (fst r); jwire (fst (snd r)); jwire (snd (snd r))]
+                        | _, _ => junsupported end
+         | _ => junsupported end
+  else None.
+
 Definition dispatch_tz (f : list N) (a : jv) : option jv :=
+  match dispatch_c11 f a with Some r => Some r | None =>
   match dispatch_c12 f a with
   | Some r => Some r
   | None => match dispatch_cache f a with Some r => Some r | None => dispatch_c13 f a end
-  end.
+  end end.
